@@ -2,6 +2,7 @@
 #![allow(unused)]
 use vstd::prelude::*;
 //@ include _prelude.rs
+//@ include _types.rs
 //@ include _vocab.rs
 
 verus! {
@@ -11,8 +12,6 @@ pub open spec fn misplaced(a: &HelperAttributeForCompareOp) -> bool {
 pub open spec fn any_misplaced(h: &HelperAttributesForCompareOp) -> bool {
     misplaced(&h.ord) || misplaced(&h.partial_ord) || misplaced(&h.eq) || misplaced(&h.partial_eq) || misplaced(&h.hash)
 }
-#[verifier::external_body]
-pub struct Bounds { _p: u8 }
 
 // ---------------- C02: a combination that is accepted for every derived trait is coherent -------------------
 // DSet: the set of derived traits; the macro can only be used with supertrait-closed sets (Eq => PartialEq,
@@ -49,8 +48,6 @@ pub proof fn lemma_c02_witness() {
 }
 }
 
-//@ enum item_type.rs CompareOp
-//@ enum item_type.rs AttributeTarget
 //@ constseq item_type.rs CompareOp::VARIANTS
 #[verus_verify]
 impl CompareOp {
@@ -61,8 +58,6 @@ impl CompareOp {
 //@   spec r => ensures r == affects(self, target)
 //@ end
 }
-//@ struct item_type/compare_op.rs HelperAttributeForCompareOp
-//@ struct item_type/compare_op.rs HelperAttributesForCompareOp
 
 #[verus_verify]
 impl HelperAttributeForCompareOp {
